@@ -75,8 +75,14 @@ def run(prop, tier, seed, verdict, tree):
         if p.returncode != 0:
             err = next((l for l in p.stderr.splitlines() if "error" in l), p.stderr[-300:])
             return (m, std, cxx, h[0], "compile-error", err[:300])
+        out = b""
         try:
-            r = subprocess.run([exe], capture_output=True, timeout=120)
+            # the scenario is run with four seeds (different guard/transition sequences)
+            for sseed in (0, 1 + seed % 1000, 2 + seed % 1000, 3 + seed % 1000):
+                r = subprocess.run([exe, str(sseed)], capture_output=True, timeout=120)
+                if r.returncode != 0:
+                    return (m, std, cxx, h[0], "run-rc=%d" % r.returncode, r.stderr.decode("utf-8", "replace")[-300:])
+                out += r.stdout
         except subprocess.TimeoutExpired:
             return (m, std, cxx, h[0], "timeout", "")
         finally:
@@ -84,9 +90,6 @@ def run(prop, tier, seed, verdict, tree):
                 os.unlink(exe)
             except OSError:
                 pass
-        if r.returncode != 0:
-            return (m, std, cxx, h[0], "run-rc=%d" % r.returncode, r.stderr.decode("utf-8", "replace")[-300:])
-        out = r.stdout
         last = out.strip().splitlines()[-1].decode("utf-8", "replace") if out.strip() else ""
         return (m, std, cxx, h[0], "ok", hashlib.sha256(out).hexdigest()[:16] + " " + last)
 
@@ -155,7 +158,7 @@ def run(prop, tier, seed, verdict, tree):
     cov["evaluations"] = len(results)
     cov["distinct_nontrivial"] = len(set((r[0], r[1], r[2], r[3]) for r in ok if r[0] != 0))
     cov["rule"] = ("a case = compile and run harness/cfgscenario.cpp (base API only, automatic + manual machine, payload + "
-                   "payload-free, ~17k trace lines) under one (switch subset, -std, compiler, header variant); compared: compiler "
+                   "payload-free, ~17k trace lines per seed, four scenario seeds) under one (switch subset, -std, compiler, header variant); compared: compiler "
                    "exit status and sha256 of the complete output; non-trivial = built, ran and at least one feature switch on; "
                    "distinct by configuration tuple. Plus byte comparison of join.py output with the shipped header.")
     cov["exhaustive"] = exhaustive
